@@ -141,6 +141,17 @@ fn victim_view(h: &History, from: SocketAddr, to: SocketAddr) -> Option<(u16, u1
             break;
         }
     }
+    if last_from.is_none() {
+        // nothing from the victim's peer yet, but the target's own SYN towards it is out: its
+        // id is the one the target will receive on
+        for (_, ev) in h.evs.iter().rev() {
+            if let Ev::Emit(e) = ev {
+                if let Some(p) = e.pkt.as_ref().filter(|p| e.real && p.typ == codec::ST_SYN && e.src == to && e.dst == from) {
+                    return Some((p.conn_id, 0, p.seq));
+                }
+            }
+        }
+    }
     let (cid, seq) = last_from?;
     Some((cid, seq, last_to.unwrap_or(0)))
 }
